@@ -331,6 +331,14 @@ def inject_fn(em, module, vc, header, body, is_trait_impl, struct_name):
             inserts.append((m.start(), ('TEXT', k, rt)))
         if tail and k >= 1:
             inserts.append((m.start(), ('TAIL', k, '')))
+    for key in list(vc.sec.keys()):
+        # statement-level anchor (used sparingly): `== before FN :: needle` - proof text goes before the line containing needle
+        if key.startswith('before %s ::' % name):
+            needle = key.split('::', 1)[1].strip()
+            if body.count(needle) != 1:
+                raise ExtractError('lost anchor: `%s` occurs %d times in %s::%s' % (needle, body.count(needle), module, name))
+            at = body.rfind('\n', 0, body.index(needle)) + 1
+            inserts.append((at, ('TEXT', -1, vc.get(key))))
     bt = vc.get('begin ' + name)
     if bt:
         inserts.append((0, ('TEXT', -1, bt)))
@@ -536,7 +544,7 @@ def build(out_path, only=None):
            'broadcast use {crate::lem::group_lem, crate::shim::group_literals, crate::shim::group_shim};\n'
            '// each of these MUST FAIL; if one verifies the trusted base is inconsistent\n'
            'pub proof fn canary_false() ensures false {}\n'
-           'pub proof fn canary_axioms() ensures false { ax_cos_sin(1real); ax_pi(); ax_ln_one(); ax_minmax(); ax_signum0(); ax_entropy(1real / 2real); ax_log2_one(); ax_cos_sin_q1(1real); ax_ln_inv(2real); ax_ln_mono(1real, 2real); }\n'
+           'pub proof fn canary_axioms() ensures false { ax_cos_sin(1real); ax_pi(); ax_ln_one(); ax_minmax(); ax_signum0(); ax_entropy(1real / 2real); ax_log2_one(); ax_cos_sin_q1(1real); ax_ln_inv(2real); ax_ln_mono(1real, 2real); ax_cos_q23(2real); }\n'
            'pub proof fn canary_real(a: real, b: real) requires a * b == 1real ensures a == b {}\n'
            '} // mod canary')
     em.add(tail.strip('\n'))
